@@ -16,6 +16,7 @@ import PegtlVerif.Lemmas.SemRun
 import PegtlVerif.Lemmas.SemDet
 import PegtlVerif.Lemmas.WftCheck
 import PegtlVerif.Lemmas.AtomExpand
+import PegtlVerif.Lemmas.Complete
 
 namespace Pegtl.C09
 open Pegtl.Spec
@@ -38,6 +39,15 @@ theorem C09_exact (cx : Ctx) (wf : WFT cx) (n i : Nat) (nd : Node) (hn : cx.g[i]
     (hs : SemC cx st.endp (expandKind nd.kind) st.cur.pos o) : absO r = some o := by
   obtain ⟨o', ho', s'⟩ := C09_refines cx wf n i nd hn a m env st r hv h
   rw [Sem.det hs s']; exact ho'
+
+/-- Conversely, whenever the formalism derives an outcome for the documented expansion of rule `i`'s kind, the
+    hand-optimised `match()` returns (with enough fuel, in every mode) and returns that outcome: the rule accepts
+    *all* the inputs its expansion accepts, not only a subset. -/
+theorem C09_complete (cx : Ctx) (wf : WFT cx) (i : Nat) (nd : Node) (hn : cx.g[i]? = some nd)
+    (st : St) (hv : Valid cx st) (o : Outcome)
+    (hs : SemC cx st.endp (expandKind nd.kind) st.cur.pos o) (a : AMode) (m : RMode) (env : Env) :
+    ∃ n r, (∀ n', n ≤ n' → run cx n' i a m env st = some r) ∧ absO r = some o :=
+  Complete.run_complete cx wf i st hv o (.ref (Gof_of hn) hs) a m env
 
 /-! #### The expansions, spelled out for the hand-optimised rules -/
 
